@@ -309,6 +309,7 @@ def _collect_comment_trivia(
 
     selected = list(selected)
     prev = start
+    prev_comment: Comment | None = None
     collected: list[Any] = []
     for comment_node in selected:
         append_gap_between_offsets(
@@ -319,11 +320,19 @@ def _collect_comment_trivia(
             include_linebreak=include_linebreak,
         )
         comment_expr = Comment.from_cst(comment_node)
-        if allow_inline and point_row(comment_node.start_point) == point_row(prev.end_point):
+        # Sharing a line with an own-line comment does not attach a comment to
+        # the code before that line.
+        after_own_line_comment = prev_comment is not None and not prev_comment.inline
+        if (
+            allow_inline
+            and not after_own_line_comment
+            and point_row(comment_node.start_point) == point_row(prev.end_point)
+        ):
             if not inline_requires_gap or comment_node.start_byte > prev.end_byte:
                 comment_expr.inline = True
         collected.append(comment_expr)
         prev = comment_node
+        prev_comment = comment_expr
     if (
         include_empty_line
         and end is not None
